@@ -9,12 +9,15 @@ import (
 	"math/big"
 	"sort"
 	"strconv"
+	"strings"
 	"testing"
 
 	sdk "github.com/cosmos/cosmos-sdk/types"
 	banktypes "github.com/cosmos/cosmos-sdk/x/bank/types"
 	"github.com/ethereum/go-ethereum/common"
 
+	"github.com/teleport-network/teleport/syscontracts"
+	agentcontract "github.com/teleport-network/teleport/syscontracts/xibc_agent"
 	packetkeeper "github.com/teleport-network/teleport/x/xibc/core/packet/keeper"
 	packettypes "github.com/teleport-network/teleport/x/xibc/core/packet/types"
 
@@ -77,8 +80,10 @@ func runHistory(r *core.Run, cid string, L int) {
 			m.validSend()
 		case x < 60:
 			m.invalidSend()
-		case x < 70:
+		case x < 66:
 			m.multiSend()
+		case x < 70:
+			m.nestedSend()
 		case x < 75:
 			m.faultedSend()
 		case x < 85:
@@ -387,6 +392,122 @@ func (m *mon) multiSend() {
 	}
 	o := s.DeliverEth(src, what, tx)
 	m.observeSend(src, what, o, pkt.SendSpec{Src: src, Dst: dst, User: s.W.Admin})
+}
+
+// nestedSend: a packet a->b whose call data makes the agent contract on b send the received tokens on to a third
+// chain (a send that happens inside a module-driven EVM call while b processes MsgRecvPacket). With a known
+// destination the nested send must be numbered and committed like any other; with an unknown destination it fails
+// in the hook and must change nothing on b (no commitment, no counter change, no tokens locked).
+func (m *mon) nestedSend() {
+	s := m.s
+	var tok *core.Token
+	for _, t := range s.Tokens {
+		if t.Addr != core.ZeroAddr {
+			tok = t
+			break
+		}
+	}
+	if tok == nil {
+		return
+	}
+	a := tok.Origin
+	var others []*core.Node
+	for _, n := range s.W.Nodes {
+		if n != a {
+			others = append(others, n)
+		}
+	}
+	b, c := others[0], others[1]
+	if s.Rng.Intn(2) == 0 {
+		b, c = c, b
+	}
+	dstName := c.Name
+	known := s.Rng.Intn(2) == 0
+	if !known {
+		dstName = "no-such-chain"
+	}
+	amount := int64(100 + s.Rng.Intn(1000))
+	fee := int64(s.Rng.Intn(50))
+	data, err := agentcontract.AgentContract.ABI.Pack("send", tok.AddrOn(b), pkt.LowerHex(s.RandUser().Eth), dstName, big.NewInt(fee))
+	if err != nil {
+		return
+	}
+	sp := pkt.SendSpec{Src: a, Dst: b, User: s.RandUser(), Token: tok, Amount: big.NewInt(amount + fee), Receiver: strings.ToLower(agentcontract.AgentContractAddress.Hex()),
+		Call: pkt.CallSpec{Kind: "agent-nested-send", Contract: syscontracts.AgentContractAddress, Data: data}}
+	o0, _ := m.sendRaw(sp)
+	before := len(s.Pkts)
+	m.observeSend(a, "outer-send-for-nested", o0, sp)
+	if !o0.OK() || len(s.Pkts) != before+1 {
+		return
+	}
+	p := s.Pkts[len(s.Pkts)-1]
+	o, err := s.HonestRecv(p, s.RandRelayer())
+	if err != nil || !o.OK() {
+		m.r.Count("nested/recv-failed", 1)
+		m.checkAll("nested recv failed")
+		return
+	}
+	what := "nested-send/known-destination"
+	if !known {
+		what = "nested-send/unknown-destination"
+	}
+	m.r.Eval(fmt.Sprintf("%s/%d/%s", m.cid, len(s.Log), what), true)
+	evs := core.SendPackets(o.Result.Events)
+	var nested []*packettypes.EventSendPacket
+	for _, e := range evs {
+		if e.SrcChain == b.Name {
+			nested = append(nested, e)
+		}
+	}
+	m.r.Count(fmt.Sprintf("%s/ack-code-%d/nested-events-%d", what, p.AckCode, len(nested)), 1)
+	if p.AckCode != 0 {
+		// the receive (and with it the nested send) failed: nothing may be left on b besides receipt and ack
+		var eff []core.DiffEntry
+		eff = append(eff, o.DiffIn("evm")...)
+		eff = append(eff, o.DiffIn("bank")...)
+		for _, d := range o.DiffIn("xibc") {
+			if !strings.HasPrefix(d.Key, "receipts/") && !strings.HasPrefix(d.Key, "acks/") {
+				eff = append(eff, d)
+			}
+		}
+		if len(eff) != 0 {
+			m.r.Violation(m.cid, "failed-send-changed-state/"+what, map[string]interface{}{"effects": core.TrimDiff(eff, 10), "ack_code": p.AckCode, "log": tail(s.Log)})
+		}
+		if len(nested) != 0 {
+			m.r.Violation(m.cid, "events/EventSendPacket-for-failed-nested-send", map[string]interface{}{"what": what})
+		}
+	} else {
+		// the callback succeeded: then the nested send succeeded too and must be in the books
+		if len(nested) != 1 {
+			m.r.Violation(m.cid, fmt.Sprintf("nested-send/success-ack-with-%d-EventSendPacket", len(nested)), map[string]interface{}{"what": what, "known_destination": known, "log": tail(s.Log)})
+		}
+		for _, e := range nested {
+			var q packettypes.Packet
+			if err := q.ABIDecode(e.Packet); err != nil {
+				continue
+			}
+			k := key(b, q.DstChain)
+			m.dsts[q.DstChain] = true
+			if q.Sequence != m.nextOf(k) {
+				m.r.Violation(m.cid, "sequence/not-next", map[string]interface{}{"path": k, "got": q.Sequence, "want": m.nextOf(k), "what": what})
+			}
+			m.next[k] = m.nextOf(k) + 1
+			if m.open[k] == nil {
+				m.open[k] = map[uint64][]byte{}
+			}
+			m.open[k][q.Sequence] = e.Packet
+			s.Register(&core.SentPacket{Bytes: e.Packet, Packet: q, Src: q.SrcChain, Dst: q.DstChain}, pkt.SendSpec{Src: b, Dst: c, User: s.W.Admin}, b)
+			m.r.Count("packets_sent", 1)
+		}
+	}
+	m.checkAll(what)
+}
+
+func tail(l []string) []string {
+	if len(l) > 10 {
+		return l[len(l)-10:]
+	}
+	return l
 }
 
 // faultedSend injects a failure into the chain->contract setSequence call.
